@@ -159,6 +159,35 @@ class Module:
                                     out.append(a)
                                 changed = True
                                 continue
+                        if isinstance(st, ast.Assign) and len(st.targets) == 1 and isinstance(st.targets[0], ast.Tuple) and isinstance(st.value, ast.IfExp) and all(isinstance(b, ast.Tuple) and len(b.elts) == len(st.targets[0].elts) and not any(isinstance(e, ast.Starred) for e in b.elts) for b in (st.value.body, st.value.orelse)) and all(isinstance(t, ast.Name) for t in st.targets[0].elts):
+                            # `a, b = (x1, y1) if c else (x2, y2)`: the statement form, one plain assignment per element
+                            tn = {t.id for t in st.targets[0].elts}  # type: ignore[attr-defined]
+                            if len(tn) == len(st.targets[0].elts) and not any(isinstance(x, ast.Name) and x.id in tn for b in (st.value.body, st.value.orelse) for x in ast.walk(b)) and not any(isinstance(x, ast.Name) and x.id in tn for x in ast.walk(st.value.test)):
+                                def seq(b: ast.Tuple) -> list[ast.stmt]:
+                                    r_ = []
+                                    for t, e in zip(st.targets[0].elts, b.elts):  # type: ignore[attr-defined]
+                                        a_ = ast.Assign(targets=[ast.Name(id=t.id, ctx=ast.Store())], value=e)  # type: ignore[attr-defined]
+                                        ast.copy_location(a_, st)
+                                        r_.append(a_)
+                                    return r_
+                                iff = ast.If(test=st.value.test, body=seq(st.value.body), orelse=seq(st.value.orelse))  # type: ignore[arg-type]
+                                ast.copy_location(iff, st)
+                                ast.fix_missing_locations(iff)
+                                out.append(iff)
+                                changed = True
+                                continue
+                        if isinstance(st, ast.Assign) and len(st.targets) == 1 and isinstance(st.targets[0], ast.Name) and isinstance(st.value, ast.IfExp) and any(isinstance(b, ast.Constant) and b.value is None for b in (st.value.body, st.value.orelse)):
+                            # `x = <error> if c else None` (None-or-value chosen by a condition): the statement form, so that the
+                            # condition is a test of the flow graph and the later `x is None` is decided per branch
+                            a1 = ast.Assign(targets=[st.targets[0]], value=st.value.body)
+                            a2 = ast.Assign(targets=[ast.Name(id=st.targets[0].id, ctx=ast.Store())], value=st.value.orelse)
+                            iff = ast.If(test=st.value.test, body=[a1], orelse=[a2])
+                            for x_ in (a1, a2, iff):
+                                ast.copy_location(x_, st)
+                            ast.fix_missing_locations(iff)
+                            out.append(iff)
+                            changed = True
+                            continue
                         out.append(st)
                     setattr(parent, f, out)
             if changed:
